@@ -35,6 +35,7 @@ class Func:
         self.effect = effect        # 'none' | 'reads' | 'writes'
         self.ret = ret              # 'int' | 'bool' (functions)
         self.rec = False            # first formal is a recursion depth
+        self.loop = None            # (base, step): the first formal drives a loop at the very start of the body
 
 
 class Env:
@@ -191,7 +192,10 @@ class Gen:
         for i, (k, name, info) in enumerate(f.formals):
             g = glob and impure_at is None
             if k == 'val':
-                if i == 0 and f.rec:
+                if i == 0 and f.loop is not None:
+                    base, step = f.loop
+                    args.append(num(base + step * self.r.randint(2, 5)))
+                elif i == 0 and f.rec:
                     if rec is not None:
                         args.append(('bin', '-', ('var', rec), ('num', self.r.choice([1, 1, 1, 2]))))
                     else:
@@ -349,6 +353,37 @@ class Gen:
             return self.bool_expr(env, 2, glob, imp)
         return self.int_expr(env, 3, glob, imp)
 
+    # ------------------------------------------------------------ name clashes
+    def clash_name(self, genv, used, default):
+        """a name for a formal or local: mostly the default, sometimes the name of a global val, a global variable, a
+        global array or another procedure (the inner declaration hides it; XSem resolves the scopes)"""
+        if not self.chance(0.12):
+            return default
+        sysn = set(self.sysname.values())
+        cands = [v for v in genv.ints] + [k for k in genv.vals if k not in sysn] + [a for a in genv.arrays] + \
+                [f.name for f in genv.funcs if f.name not in ('main',)]
+        cands = [c for c in cands if c not in used]
+        if not cands:
+            return default
+        return self.r.choice(cands)
+
+    def hide(self, env, nm):
+        """nm is declared locally: whatever global it named is out of scope in env"""
+        env.globs.discard(nm)
+        if nm in env.bools:
+            env.bools.remove(nm)
+        if nm in env.vals:
+            del env.vals[nm]
+        if nm in env.arrays:
+            del env.arrays[nm]
+        if nm in env.ints:
+            env.ints.remove(nm)
+        if nm in env.assign:
+            env.assign.remove(nm)
+        if nm in env.small:
+            del env.small[nm]
+        env.funcs = [f for f in env.funcs if f.name != nm]
+
     # ------------------------------------------------------------ procedures
     def proc(self, i, genv, arrays, name):
         r = self.r
@@ -356,6 +391,11 @@ class Gen:
         effect = r.choice(['none', 'reads', 'reads', 'writes', 'writes']) if kind == 'func' else 'writes'
         nf = r.choice([0, 1, 1, 2, 2, 3, 3, 4, 5]) if not self.chance(0.08) else r.randint(6, 12)
         rec = kind == 'func' and self.chance(0.3)
+        # how the body begins: with the initialisation of the locals (None), or directly behind the prologue with a
+        # while / if / return that reads a value formal
+        first_mode = None if rec or not self.chance(0.3) else r.choice(['while', 'while', 'if', 'return'])
+        if first_mode == 'return' and kind != 'func':
+            first_mode = 'if'
         formals = []
         env = Env()
         env.vals = dict(genv.vals)
@@ -374,48 +414,40 @@ class Gen:
             formals.append(('val', 'd', None))
             env.ints.append('d')
             nf = max(nf, 1)
+        if first_mode is not None:
+            formals.append(('val', 'w', None))
+            env.ints.append('w')
+            nf = max(nf, 1)
         for j in range(len(formals), nf):
             if effect != 'none' and self.chance(0.18):
                 info = {'minlen': r.choice([1, 1, 2, 3]), 'writes': effect == 'writes' and self.chance(0.4)}
-                nm = 's%d' % j
+                nm = self.clash_name(genv, [f[1] for f in formals], 's%d' % j)
+                self.hide(env, nm)
                 formals.append(('array', nm, info))
                 env.arrays[nm] = (info['minlen'], info['writes'], True)
             else:
-                nm = 'p%d' % j
-                if genv.ints and self.chance(0.06):
-                    nm = r.choice(genv.ints)            # a formal that hides a global
-                    if nm in [f[1] for f in formals]:
-                        nm = 'p%d' % j
+                nm = self.clash_name(genv, [f[1] for f in formals], 'p%d' % j)   # may hide a global val / var / array / procedure
+                self.hide(env, nm)
                 formals.append(('val', nm, None))
-                if nm in env.globs:
-                    env.globs.discard(nm)
-                    if nm in env.bools:
-                        env.bools.remove(nm)
-                if nm not in env.ints:
-                    env.ints.append(nm)
+                env.ints.append(nm)
                 if nm not in env.assign and self.chance(0.3):
                     env.assign.append(nm)
         fn = Func(name, kind, formals, effect, r.choice(['int', 'int', 'int', 'bool']) if kind == 'func' else None)
         fn.rec = rec
+        if first_mode == 'while':
+            fn.loop = (r.choice([0, 3, 100, 65536, 199990, 200000, 200010, 200400, 1 << 20]), r.choice([1, 1, 2, 100]))
+        env_first = env.copy()          # what the first statement may use: the locals are not initialised yet
         locs = []
         init = []
         nl = r.choice([0, 1, 1, 2, 3])
         used = set(f[1] for f in formals)
         for j in range(nl):
-            nm = 'l%d' % j
-            if genv.ints and self.chance(0.05):
-                cand = r.choice(genv.ints)
-                if cand not in used:
-                    nm = cand                           # a local that hides a global
+            nm = self.clash_name(genv, used, 'l%d' % j)       # may hide a global val / var / array / procedure
             used.add(nm)
             locs.append(('var', nm))
-            env.globs.discard(nm)
-            if nm in env.bools:
-                env.bools.remove(nm)
-            if nm not in env.ints:
-                env.ints.append(nm)
-            if nm not in env.assign:
-                env.assign.append(nm)
+            self.hide(env, nm)
+            env.ints.append(nm)
+            env.assign.append(nm)
             init.append(('assign', nm, num(r.randint(0, 9))))
         if self.chance(0.5):
             locs.append(('var', 'c'))
@@ -432,7 +464,27 @@ class Gen:
             locs.insert(0, ('val', 'k', self.r.choice([num(v), ('bin', '+', num(v), ('num', 0))])))
             env.vals['k'] = v
         r.shuffle(locs)
-        body = list(init)
+        first = []
+        if first_mode == 'while':
+            base, step = fn.loop
+            cond = r.choice([('bin', '~=', ('var', 'w'), num(base)), ('bin', '>', ('var', 'w'), num(base)),
+                             ('not', ('bin', '=', ('var', 'w'), num(base))), ('bin', '<', num(base), ('var', 'w'))])
+            ef = env_first.copy()
+            ef.counters = []
+            inner = [self.stmt(ef, 1, fn)] if self.chance(0.5) else []
+            inner = [s for s in inner if s[0] != 'return']
+            first = [('while', cond, ('seq', inner + [('assign', 'w', ('bin', '-', ('var', 'w'), num(step)))])
+                      if inner or self.chance(0.5) else ('assign', 'w', ('bin', '-', ('var', 'w'), num(step))))]
+        elif first_mode == 'if':
+            ef = env_first.copy()
+            ef.counters = []
+            cond = ('bin', r.choice(RELOPS), ('var', 'w'), self.leaf_int(ef, glob=(effect != 'none')))
+            first = [('if', cond, self.stmt(ef, 1, fn), self.stmt(ef, 1, fn) if self.chance(0.5) else ('skip',))]
+        elif first_mode == 'return':
+            ef = env_first.copy()
+            first = [('if', ('bin', r.choice(RELOPS), ('var', 'w'), num(r.choice([0, 3, 200000]))),
+                      ('return', ('bin', r.choice(['+', '-']), ('var', 'w'), self.leaf_int(ef, glob=(effect != 'none')))), ('skip',))]
+        body = first + list(init)
         if rec:
             env.selfrec = (fn, 'd')
             base = ('return', self.bool_expr(env, 1, False, False) if fn.ret == 'bool' else self.leaf_int(env, False))
@@ -593,6 +645,11 @@ def directed():
     S.append(('relational-both-sides', hdr + 'var a; var b;\nfunc id(val x) is return x\nproc main() is { a := 3; b := 7; exit(((a < b) + (a <= b)) + ((a > b) + (a >= b)) + ((id(a) < id(b)) + (id(b) <= (a + a))) + ((b - a) > (a - b)) + ((0 < a) + (a < 0)) + ((0 = a) + (b = 0))) }\n', [[]]))
     S.append(('call-in-subscript', hdr + 'array a[6];\nfunc two() is return 2\nproc main() is var i; { i := 0; while i < 6 do { a[i] := i + 1; i := i + 1 }; a[two() + 1] := a[two()] + a[two() + two()]; exit(a[3] + a[two() - 2]) }\n', [[]]))
     S.append(('nested-calls', hdr + 'func inc(val x) is return x + 1\nfunc add(val x, val y) is return x + y\nproc main() is exit(add(inc(inc(1)), add(inc(2), add(3, inc(inc(inc(0)))))))\n', [[]]))
+    S.append(('while-first-on-formal', 'val exit = 0;\nproc drain(val level) is\n  var spare;\n  while level ~= 200010 do level := level - 1\nproc main() is { drain(200013); exit(0) }\n', [[]]))
+    S.append(('while-first-on-formal-func', 'val exit = 0;\nvar total;\nproc bump(val by) is total := total + by\nfunc climb(val level, val top) is\n{ while level ~= top do { bump(1); level := level + 100 };\n  return total\n}\nproc main() is { total := 0; exit(climb(200100, 200400)) }\n', [[]]))
+    S.append(('while-first-on-formal-locals', hdr + 'var g;\nfunc f(val w, val k) is var a; var b; var c;\n{ while w > 199999 do { g := g + k; w := w - 2 }; a := g; b := a + 1; c := b - a; return a + c }\nproc main() is { g := 0; put(f(200007, 3) + 48, 0); exit(f(200003, 1)) }\n', [[]]))
+    S.append(('if-first-on-formal', hdr + 'func f(val w) is var a;\n{ if w < 200000 then a := 1 else a := 2; return a + w }\nproc main() is exit(f(199999) + f(200001))\n', [[]]))
+    S.append(('return-first-on-formal', hdr + 'func f(val w, val v) is var a; var b;\n{ if w = 200000 then return v + 1 else skip; a := w; b := v; return a - b }\nproc main() is exit(f(200000, 4) + f(7, 2))\n', [[]]))
     S.append(('exit-in-function', hdr + 'func f(val x) is { if x > 2 then exit(x + 40) else skip; return x }\nproc main() is { put(f(1) + 48, 0); put(f(7) + 48, 0) }\n', [[]]))
     return S
 
